@@ -44,7 +44,7 @@ def compact(number):
     number of any valid separators and removes surrounding whitespace."""
     number = clean(number, ' ').upper().strip()
     if number.startswith('NO'):
-        number = number[2:]
+        number = number[2:].strip()
     return number
 
 
